@@ -174,6 +174,7 @@ class Monitor(object):
     # the support symbols of a composite entry must be variables that are defined here
     # (composites need all support symbols live into the statement)
     import ast as _ast
+    unbound_support = set()
     for i, n in enumerate(symbol_names):
       if not composite[i]:
         continue
@@ -184,6 +185,13 @@ class Monitor(object):
       for rname in roots:
         val = frame.f_locals.get(rname, frame.f_globals.get(rname, _MISSING))
         if val is _MISSING or _is_undef(val):
+          if _is_undef(st[i]):
+            # calibration: the analysis may keep a support symbol live over a path that cannot execute (e.g. past a
+            # `with` body whose exception the manager might swallow); the entry is then reported Undefined, which is
+            # what the contract asks for a variable that does not exist yet
+            self.stats['composite_entry_with_unbound_support_symbol_reported_undefined'] = self.stats.get('composite_entry_with_unbound_support_symbol_reported_undefined', 0) + 1
+            unbound_support.add(i)
+            break
           self.bad(kind + ':composite-state-entry-with-undefined-support-symbol', {'name': n, 'symbol': rname})
           return
     # position by position the same variables
@@ -192,7 +200,14 @@ class Monitor(object):
         v = self._eval(frame, n)
         missing = False
       except NameError as e:
-        if composite[i]:
+        if composite[i] and i in unbound_support:
+          missing = True
+          v = None
+          if not _is_undef(st[i]):
+            self.bad(kind + ':state-entry-for-unbound-name-not-Undefined', {'name': n, 'got': repr(st[i])})
+            return
+          continue
+        elif composite[i]:
           # a composite state entry whose support symbol is not a variable here (programs never
           # read unbound variables, so this cannot come from the user program)
           self.bad(kind + ':composite-state-entry-with-unbound-support-symbol', {'name': n, 'exc': repr(e)[:120]})
